@@ -42,6 +42,10 @@ func hostileExec(c *Ctx, op string) {
 	switch pre {
 	case "empty":
 		os.Mkdir(target, 0755)
+	case "linkfile": // the target path itself is a symlink to a file outside
+		os.Symlink(filepath.Join(victim, "passwd"), target)
+	case "linkdir": // … to a directory outside
+		os.Symlink(filepath.Join(victim, "dir"), target)
 	case "populated":
 		os.Mkdir(target, 0755)
 		os.Mkdir(filepath.Join(target, "d"), 0755)
@@ -182,6 +186,10 @@ func hostileExec(c *Ctx, op string) {
 			res = "ok"
 		}
 	}
+	if ms := mountsUnder(victim); len(ms) > 0 || mounted(filepath.Join(victim, "passwd")) {
+		c.PropFail("escape", fmt.Sprintf("unpack(%s) onto a %s target mounted something outside the target: on the victim %v", mode, pre, ms), op)
+		unmountAllUnder(victim)
+	}
 	if mode == "mount" {
 		syscall.Unmount(target, 0)
 	}
@@ -299,6 +307,15 @@ func hostileEngine(c *Ctx) {
 		{dir("./"), lnk("a", "b", 0777, 0), lnk("b", "@V@", 0777, 0), file("a/pwned")},
 		{dir("./"), RawHdr{Name: "hl", Typeflag: '1', Link: "@V@/passwd"}},
 		{lnk("x/..", "@V@", 0777, 0), file("pwned")},
+	}
+	// wares whose root is a special file, a plain file or a directory, placed onto a target path that is a symlink to the outside
+	for _, hs := range [][]RawHdr{{{Name: ".", Typeflag: '6', Mode: 0644, Sec: 1e9}}, {{Name: ".", Typeflag: '3', Mode: 0600, Maj: 1, Min: 3, Sec: 1e9}}, {file(".")}, {dir("./"), file("x")},
+		{lnk(".", "elsewhere", 0777, 0)}} {
+		for _, m := range []string{"mount", "copy", "direct"} {
+			for _, p := range []string{"linkfile", "linkdir"} {
+				hostileExec(c, fmt.Sprintf("hostile %s %s %s", m, p, hdrsTok(hs)))
+			}
+		}
 	}
 	for i, hs := range corpus {
 		if i%4 == 0 || i < 3 {
